@@ -583,14 +583,31 @@ pub fn conc(a: &Args) {
         }
         calls += nthreads * per;
         let me = tid();
+        // everything the harness itself calls runs under catch_unwind: a panic of the code under test (for
+        // example a poisoned sink mutex after a panic in another thread) is data, not a harness failure
+        let mut main_panics = 0u64;
         hk(Hk::ECall(me, "flush".into(), String::new()));
-        let r = client.flush();
-        hk(Hk::ERet(me, r.map(|_| 0).map_err(|e| format!("{:?}", e.kind()))));
+        match catch_unwind(AssertUnwindSafe(|| client.flush())) {
+            Ok(r) => hk(Hk::ERet(me, r.map(|_| 0).map_err(|e| format!("{:?}", e.kind())))),
+            Err(_) => {
+                main_panics += 1;
+                hk(Hk::ERet(me, Err("PANIC".into())));
+            }
+        }
         // quiescent: every thread joined, everything flushed
-        let stats = stats_ev(&sink.stats());
+        let stats = catch_unwind(AssertUnwindSafe(|| stats_ev(&sink.stats()))).unwrap_or_else(|_| {
+            main_panics += 1;
+            json!({"ev":"panic","msg":"stats() panicked"})
+        });
         hk(Hk::ECall(me, "drop".into(), String::new()));
-        drop(client);
-        drop(sink);
+        if catch_unwind(AssertUnwindSafe(move || {
+            drop(client);
+            drop(sink);
+        }))
+        .is_err()
+        {
+            main_panics += 1;
+        }
         hk(Hk::ERet(me, Ok(0)));
         let hooks = take_hooks();
         // let the last datagrams arrive, then stop the drainer
@@ -699,6 +716,9 @@ pub fn conc(a: &Args) {
         }
         if wire.decoy() > 0 {
             evs.push(json!({"ev":"att","hex":"ff","len":1,"ok":true,"kind":"","decoy":true}));
+        }
+        if main_panics > 0 {
+            evs.push(json!({"ev":"panic","msg":format!("{} harness-side calls panicked: {}", main_panics, last_panic())}));
         }
         if !kind.contains("spy") {
             evs.push(stats);
